@@ -8,8 +8,9 @@ spec -> code : SamplerMC.tla enumerates six bounded case spaces (inverse-CDF tab
                multiply; choice without replacement; direct and rotated cap paths with the
                radians->degrees conversion count) as actions against them.  Every enumerated
                case is exported and executed against the real code:
-                 * stub generators feed lattice deviates (u = j/16 and the exported cumulative
-                   values; radial deviates 0, 1/4, 1- and position angles 0, 90, 180, 270 degrees;
+                 * stub generators feed lattice deviates (u = j/16, the exported cumulative
+                   values and a point just above every flat stretch - density values include 0,
+                   and accumulated input (cumulative=True) is a second kind of table; radial deviates 0, 1/4, 1- and position angles 0, 90, 180, 270 degrees;
                    box corners; recorded integer normal deviates), so that sampler / Cholesky /
                    cap outputs have exact lattice values;
                  * real seeded generators (legacy RandomState, new-style Generator) for count,
@@ -60,7 +61,7 @@ _BLAT_Q = [(-90, 0), (-90, 1), (-30, 0), (0, 0), (45, 0), (90, -1), (90, 0)]
 _BLAT_T = _BLAT_Q + [(-89, 0), (0, -1), (10, 2), (89, 0)]
 BOUNDS = {
     "quick": dict(
-        XVals=set(range(0, 5)), MaxNodes=4, PVals={1, 2, 4}, UDen=16,
+        XVals=set(range(0, 5)), MaxNodes=5, PVals={0, 1, 2}, UDen=16, SmpKinds={"density", "cumulative"},
         LDiag={1, 2, 3}, LOffP={0, 2, 3}, LOffShift=2, CholMaxN=3, CholNs={1, 2, 3}, ZSels={1, 2},
         IdxMax=4,
         CapLonCodes={ecode(0, 0), ecode(360, -1), ecode(95, 0), ecode(180, 1)},
@@ -70,7 +71,7 @@ BOUNDS = {
         BoxLatCodes={ecode(l, b, 90) for l, b in _BLAT_Q},
         GenSeeds={1, 2}, GenMax=4),
     "thorough": dict(
-        XVals=set(range(0, 6)), MaxNodes=5, PVals={1, 2, 3, 4}, UDen=16,
+        XVals=set(range(0, 6)), MaxNodes=5, PVals={0, 1, 2, 3}, UDen=16, SmpKinds={"density", "cumulative"},
         LDiag={1, 2, 3}, LOffP={0, 1, 2, 3, 4}, LOffShift=2, CholMaxN=3, CholNs={1, 2, 3}, ZSels={1, 2},
         IdxMax=6,
         CapLonCodes={ecode(0, 0), ecode(0, 1), ecode(360, -1), ecode(95, 0), ecode(180, 1), ecode(270, 0), ecode(359, 2)},
@@ -88,7 +89,7 @@ ACTIONS = ["SmpChooseGrid", "SmpChooseDens", "SmpMechSearch", "SmpMechEvalStep",
            "CholFactorStart", "CholFactorCol", "CholDraw", "CholMultiply", "IdxChoose", "IdxDrawOne", "IdxReturn", "IdxReject",
            "CapChooseCentre", "CapChooseRad", "CapChooseDraw", "CapDirectStep", "CapInner", "CapTurnTheta", "CapTurnPhi",
            "CapFinish", "BoxChooseLon", "BoxChooseLat", "BoxDrawCorner", "GenStart", "GenCall1", "GenCall2"]
-MECH = dict(XShift=0, Transposed=False, FixedRadius=True)
+MECH = dict(XShift=0, Dedup="none", Transposed=False, FixedRadius=True)
 
 # lattice concretisations ---------------------------------------------------------------------
 SCONC = [(1.0, 0), (0.5, -3), (4.0, 2), (2.0 ** -10, 0), (8.0, -6), (1.0, 100)]        # abscissa = (x + off) * unit
@@ -203,9 +204,18 @@ def errname(e):
 
 # ---------------------------------------------------------------------------------
 # smp : inverse-CDF sampler
+def smp_xs(c):
+    """abscissae of the interpolation table: every node for cumulative input, all but the first for a density"""
+    return c["x"] if c.get("kind", "density") == "cumulative" else c["x"][1:]
+
+
 def smp_scale(c, off):
+    """operand scale of the inverse interpolation in lattice units: the steepest non-flat segment
+    (dx/dcum <= span * 2 max p for a trapezoid table of integers, span * p[last] for a cumulative one)
+    plus the abscissae themselves"""
     x, p = c["x"], c["p"]
-    return (x[-1] - x[0]) * Fr(max(p), min(p)) + max(abs(v + off) for v in x) + 1
+    steep = (x[-1] - x[0]) * (p[-1] if c.get("kind", "density") == "cumulative" else 2 * max(p))
+    return steep + max(abs(v + off) for v in x) + 1
 
 
 def smp_project(c, conc, vals):
@@ -218,38 +228,56 @@ def smp_project(c, conc, vals):
         v.append(o)
         try:
             f = float(t)
-            lat.append(Fr(f) / Fr(unit) - off if math.isfinite(f) else None)
+            lat.append(Fr(f) / Fr(unit) - off if math.isfinite(f) else (f if f == f else None))
         except (TypeError, ValueError):
             lat.append(None)
-    x2, xm = c["x"][1], c["x"][-1]
-    ing = [a is not None and x2 - tol <= a <= xm + tol for a in lat]
-    lef = [a is not None and a <= x2 + tol for a in lat]
+    xs = smp_xs(c)
+    ing = [a is not None and xs[0] - tol <= a <= xs[-1] + tol for a in lat]
+    nb = [-1 if a is None else sum(1 for t in xs if t < a - tol) for a in lat]      # (+-inf compare like numbers)
     mono = [lat[q] is not None and lat[q + 1] is not None and lat[q] <= lat[q + 1] + tol for q in range(len(lat) - 1)]
-    return v, ing, lef, mono
+    return v, ing, nb, mono
 
 
 def smp_build(c, conc, mode, rng=None, seed=None):
     import esutil.random as er
     unit, off = SCONC[conc]
     x = np.array([(t + off) * unit for t in c["x"]], dtype="f8")
-    p = np.array(c["p"], dtype="f8" if mode != "table_int" else "i8")
+    p = np.array(c["p"], dtype="i8" if mode in ("table_int", "cum_table_int") else "f8")
     kw = {"rng": rng} if rng is not None else {"seed": seed}
     if mode in ("table", "table_int", "scalar"):
         return er.Generator(p, x=x, **kw)
+    if mode in ("cum_table", "cum_table_int", "cum_scalar"):
+        return er.Generator(p, x=x, cumulative=True, **kw)
     table = dict(zip(c["x"], [float(t) for t in c["p"]]))
 
-    def pofx(t):               # a functional density that takes the tabulated values on the grid
-        return np.array([table[int(round(float(v) / unit - off))] for v in np.atleast_1d(t)], dtype="f8")
+    def pofx(t):               # a function that takes the tabulated values on the grid
+        r = np.array([table[int(round(float(v) / unit - off))] for v in np.atleast_1d(t)], dtype="f8")
+        return r if np.ndim(t) else float(r[0])
     if mode == "func_x":
         return er.Generator(pofx, x=x, **kw)
     if mode == "func_range":
         return er.Generator(pofx, xrange=[float(x[0]), float(x[-1])], nx=len(x), **kw)
+    if mode == "cum_func":
+        return er.Generator(pofx, x=x, cumulative=True, **kw)
     raise MachineryError("unknown sampler mode " + mode)
 
 
-def smp_modes(c):
+def smp_modes(c, n=0):
+    """entry modes of one case; the per-deviate scalar calls (one object per deviate) on every third case"""
+    if c.get("kind", "density") == "cumulative":
+        return ["cum_table", "cum_func", "cum_table_int"] + (["cum_scalar"] if n % 3 == 0 else [])
     d = [b - a for a, b in zip(c["x"], c["x"][1:])]
-    return ["table", "func_x", "table_int", "scalar"] + (["func_range"] if len(set(d)) == 1 else [])
+    return ["table", "func_x", "table_int"] + (["scalar"] if n % 3 == 0 else []) + (["func_range"] if len(set(d)) == 1 else [])
+
+
+def smp_class(c):
+    """structural class of a table (signature only): where its cumulative distribution is flat"""
+    p = c["p"]
+    if c.get("kind", "density") == "cumulative":
+        flat = [p[k] == p[k + 1] for k in range(len(p) - 1)]
+    else:
+        flat = [p[k] == 0 and p[k + 1] == 0 for k in range(1, len(p) - 1)]
+    return "leading_flat" if flat and flat[0] else "flat_stretch" if any(flat) else "strictly_increasing"
 
 
 def ob_smp(c, meta):
@@ -258,7 +286,7 @@ def ob_smp(c, meta):
     for k, mode in enumerate(meta["modes"], 1):
         o = {"k": k, "mode": mode}
         try:
-            if mode == "scalar":
+            if mode in ("scalar", "cum_scalar"):
                 vals = []
                 for u in us:
                     g = call(smp_build, c, meta["conc"], mode, rng=StubRNG(uniform_values=[u]))
@@ -267,11 +295,11 @@ def ob_smp(c, meta):
             else:
                 g = call(smp_build, c, meta["conc"], mode, rng=StubRNG(uniform_values=us))
                 vals = np.atleast_1d(call(g.sample, len(us)))
-            v, ing, lef, mono = smp_project(c, meta["conc"], vals.ravel().tolist())
-            o.update(err="none", cnt=int(vals.size), v=v, ing=ing, lef=lef, mono=mono)
+            v, ing, nb, mono = smp_project(c, meta["conc"], vals.ravel().tolist())
+            o.update(err="none", cnt=int(vals.size), v=v, ing=ing, nb=nb, mono=mono)
             raw.append([float(t) for t in vals.ravel()])
         except Exception as e:  # noqa
-            o.update(err=errname(e), cnt=0, v=[], ing=[], lef=[], mono=[])
+            o.update(err=errname(e), cnt=0, v=[], ing=[], nb=[], mono=[])
             raw.append(repr(e))
         obs.append(o)
     return obs, raw
@@ -297,7 +325,7 @@ def ob_smpr(c, meta):
             a = np.atleast_1d(call(g1.sample, n))
             disturb_global()
             b = np.atleast_1d(call(g2.sample, n))
-            v, ing, lef, _ = smp_project(c, meta["conc"], a.ravel().tolist())
+            v, ing, nb, _ = smp_project(c, meta["conc"], a.ravel().tolist())
             us = rec.got if len(rec.got) == a.size and kind != "seed" else None
             pts, mono = [], True
             for q in range(a.size):
@@ -306,7 +334,7 @@ def ob_smpr(c, meta):
                 else:
                     u = Fr(us[q])
                     uc = "tab" if u >= first + TOL_BOX else "below" if u < first - TOL_BOX else "edge"
-                pts.append({"uc": uc, "ing": ing[q], "lef": lef[q]})
+                pts.append({"uc": uc, "ing": ing[q], "nb": nb[q]})
             if us is not None:
                 order = sorted(range(a.size), key=lambda q: (us[q], q))
                 unit, off = SCONC[meta["conc"]]
@@ -591,12 +619,13 @@ def work_from_export(exp, ctx):
     def add(op, c, meta):
         W.append((len(W) + 1, op, c, meta))
     for i, c0 in enumerate(exp["SMP"]):
-        c = {"x": c0["x"], "p": c0["p"], "us": c0["us"]}
-        add("smp", c, {"conc": i % len(SCONC), "modes": smp_modes(c)})
-        if len(c["x"]) >= 3 and i % (3 if quick else 2) == 0:
-            kinds = [("legacy", "table"), ("generator", "func_x"), ("seed", "table")]
-            add("smpr", {"x": c["x"], "p": c["p"], "cum": c0["cum"], "n": 48}, {"conc": (i + 1) % len(SCONC), "kinds": kinds,
-                                                                                 "seed": seed * 100003 + i})
+        c = {"kind": c0["kind"], "x": c0["x"], "p": c0["p"], "us": c0["us"]}
+        add("smp", c, {"conc": i % len(SCONC), "modes": smp_modes(c, i)})
+        if len(c0["cum"]) >= 2 and i % (3 if quick else 2) == 0:
+            kinds = ([("legacy", "table"), ("generator", "func_x"), ("seed", "table")] if c["kind"] == "density" else
+                     [("legacy", "cum_table"), ("generator", "cum_func"), ("seed", "cum_table")])
+            add("smpr", {"kind": c["kind"], "x": c["x"], "p": c["p"], "cum": c0["cum"], "n": 48},
+                {"conc": (i + 1) % len(SCONC), "kinds": kinds, "seed": seed * 100003 + i})
     for i, c0 in enumerate(exp["CHOL"]):
         add("chol", c0, {"conc": i % len(CCONC), "entries": ["class", "func", "func_nomean", "class_scalar"]})
     for i, c0 in enumerate(exp["IDX"]):
@@ -642,12 +671,34 @@ def work_seeded(ctx, start):
         pool = [rng.randint(-3, 3) for _ in range(n * ns + 4)] if i % 2 else [(-1) ** k * k for k in range(1, n * ns + 5)]
         add("chol", {"mean": [rng.randint(-4, 4) for _ in range(n)], "L": L, "sigma": sig, "n": ns, "pool": pool,
                      "entry": "class"}, {"conc": i % len(CCONC), "entries": ["class", "func", "func_nomean", "class_scalar"]})
+    us32 = [[j // math.gcd(j, 32), 32 // math.gcd(j, 32)] for j in range(33)]
+    # density values incl. 0 on 7-node grids: leading / trailing zeros, interior runs of 1, 2, 3, 4 zeros, two gaps,
+    # all but one zero - as densities and, read as increments, as accumulated input
+    ZPAT = [(0, 0, 1, 2, 1, 1, 1), (0, 0, 0, 1, 1, 2, 1), (0, 1, 1, 1, 1, 1, 1), (1, 2, 1, 1, 0, 0, 0), (1, 1, 1, 1, 1, 0, 0),
+            (1, 1, 0, 1, 1, 1, 1), (1, 1, 0, 0, 1, 1, 1), (1, 1, 0, 0, 0, 1, 1), (1, 0, 0, 0, 0, 1, 1), (1, 0, 0, 1, 0, 0, 1),
+            (2, 1, 0, 0, 3, 0, 0), (0, 0, 0, 1, 0, 0, 0), (0, 0, 0, 0, 0, 0, 1), (0, 0, 0, 0, 0, 1, 0), (1, 0, 0, 0, 0, 0, 0),
+            (0, 1, 0, 0, 0, 0, 0), (0, 0, 1, 0, 0, 1, 0)]
+    n = 0
+    for x in ([0, 1, 2, 3, 4, 5, 6], [0, 1, 3, 4, 6, 7, 8]):
+        for pat in ZPAT:
+            for kind in ("density", "cumulative"):
+                pp = list(pat) if kind == "density" else [sum(pat[:k + 1]) for k in range(len(pat))]
+                if kind == "cumulative" and pp[-1] == 0:
+                    continue
+                c = {"kind": kind, "x": x, "p": pp, "us": us32}
+                add("smp", c, {"conc": n % len(SCONC), "modes": smp_modes(c, 0)})
+                n += 1
     for i in range(120 * nq):
         m = rng.choice([3, 4, 5, 6])
         x = sorted(rng.sample(range(0, 9), m))
-        p = [rng.randint(1, 5) for _ in range(m)]
-        c = {"x": x, "p": p, "us": [[j // math.gcd(j, 32), 32 // math.gcd(j, 32)] for j in range(33)]}
-        add("smp", c, {"conc": i % len(SCONC), "modes": smp_modes(c)})
+        kind = ("density", "cumulative")[i % 2]
+        p = [rng.choice([0, 0, 1, 2, 3, 5]) for _ in range(m)]
+        if not any(p):
+            p[rng.randrange(m)] = 1
+        if kind == "cumulative":
+            p = [sum(p[:k + 1]) for k in range(m)]
+        c = {"kind": kind, "x": x, "p": p, "us": us32}
+        add("smp", c, {"conc": i % len(SCONC), "modes": smp_modes(c, i)})
     placeholder = {"lon": [0, 0], "lat": [0, 0], "r": [180, 0], "generic": True, "draws": []}
     for i in range(400 * nq):
         ra = rng.choice([0.0, 359.9999999, 1e-7, 180.0, rng.uniform(0, 360), rng.uniform(0, 360)])
@@ -717,7 +768,12 @@ def box_trigger(rec):
 def signatures(rec, o, clause):
     op = rec["op"]
     if op in ("smp", "smpr"):
-        return ["Generator.sample|%s|%s|nodes%s" % (clause, o.get("mode", ""), "=2" if len(rec["c"]["x"]) == 2 else ">=3")]
+        klass = smp_class(rec["c"])
+        raw = rec["raw"][o["k"] - 1] if o["k"] - 1 < len(rec["raw"]) else None
+        if klass == "leading_flat" and isinstance(raw, list) and any(isinstance(t, float) and t != t for t in raw):
+            # 0/0 on the zero-width first segment: one signature whatever clause / entry mode the nan trips
+            return ["Generator.sample|nan_output|leading_flat"]
+        return ["Generator.sample|%s|%s|%s" % (clause, o.get("mode", ""), klass)]
     if op == "chol":
         return ["cholesky|%s|%s" % (clause, o.get("entry", ""))]
     if op == "idx":
@@ -797,13 +853,14 @@ def run(ctx):
             cfg_text=cfg(constants=consts, invariants=INVARIANTS), workers=16,
             require=[a for a in ACTIONS if any(a.lower().startswith(f) for f in fams)], timeout=3000)
     # 1b. non-vacuity of the refinement checks: each deviating mechanism must violate its invariant
-    small = dict(BOUNDS["quick"], DoExport=False, XVals={0, 1, 3}, MaxNodes=3, PVals={1, 2}, CholMaxN=2, CholNs={2},
+    small = dict(BOUNDS["quick"], DoExport=False, XVals={0, 1, 3, 4}, MaxNodes=4, PVals={0, 1}, UDen=4, CholMaxN=2, CholNs={2},
                  ZSels={1}, CapLonCodes={ecode(10, 0)}, CapLatCodes={ecode(30, 0, 90)}, CapRadCodes={ecode(20, 0)})
-    for fam, dev, inv in (("smp", {"XShift": 1}, "SmpMechRefines"), ("chol", {"Transposed": True}, "CholMechRefines"),
-                          ("cap", {"FixedRadius": False}, "CapMechRefines")):
+    for fam, dev, inv in (("smp", {"XShift": 1}, "SmpMechRefines"), ("smp", {"Dedup": "unique_first"}, "SmpMechRefines"),
+                          ("smp", {"Dedup": "none_strict"}, "SmpMechRefines"),
+                          ("chol", {"Transposed": True}, "CholMechRefines"), ("cap", {"FixedRadius": False}, "CapMechRefines")):
         if fam not in fams:
             continue
-        r = ctx.tlc("SamplerMC.tla", what="self-test: deviating %s mechanism violates %s" % (fam, inv),
+        r = ctx.tlc("SamplerMC.tla", what="self-test: deviating %s mechanism %s violates %s" % (fam, dev, inv),
                     cfg_text=cfg(constants=dict(small, Families={fam}, **dict(MECH, **dev)), invariants=[inv]),
                     workers=1, allow_violation=True, coverage=False)
         if inv not in r.violated:
@@ -876,7 +933,8 @@ def run(ctx):
         pts[0]["latb"] = "hi"
         return dict(o, pts=pts)
     if "smp" in fams:
-        twin("smp", m_smp, lambda r: len(r["c"]["x"]) >= 3 and r["obs"][0]["err"] == "none")
+        twin("smp", m_smp, lambda r: len(r["c"]["x"]) >= 3 and smp_class(r["c"]) == "strictly_increasing" and
+             r["obs"][0]["err"] == "none")
     if "chol" in fams:
         twin("chol", m_chol, lambda r: r["obs"][0]["err"] == "none")
     if "idx" in fams:
@@ -894,12 +952,16 @@ def run(ctx):
     ctx.traces = saved
     if any((p["id"] % 2 == 1) != (p["id"] in prej) for p in probes):
         raise MachineryError("binding self-test failed: rejected %s of %d probes" % (sorted(prej), len(probes)))
-    ctx.rule = ("every case exported from SamplerMC.tla: density tables on every 2..%d-node subset of %s with densities in %s "
-                "(u = j/16 and every tabulated cumulative value, 5 entry modes, %d lattices); every lower-triangular integer "
+    ctx.rule = ("every case exported from SamplerMC.tla: tables on every 2..%d-node subset of %s with non-negative values in %s, read "
+                "as a density (zeros = flat stretches of the cumulative distribution: leading, trailing, interior runs, all but "
+                "one zero) and, as increments, as accumulated input (cumulative=True) (u = j/16, every tabulated cumulative value "
+                "and a point just above every flat stretch; array / integer array / function with x / function with xrange,nx / "
+                "per-deviate scalar calls, %d lattices); every lower-triangular integer "
                 "factor up to %dx%d with diagonal %s, off-diagonal %s, n in %s (4 entry points, recorded deviates); every "
                 "(imax, n, unique) up to %d (3 generator sources); every lattice box and every cap (centre x radius x dorot: "
                 "%d cases) with stub deviates (3 radial x 4 position angles; 3x3 box fractions) and seeded legacy / new-style "
-                "generators; plus seeded larger cases (4x4, 5x5 factors; tables up to 6 nodes; generic centres with radii "
+                "generators; plus seeded larger cases (4x4, 5x5 factors; 17 zero patterns on two 7-node grids and random tables "
+                "with zeros up to 6 nodes, both kinds, u = j/32; generic centres with radii "
                 "log-uniform over 1e-6..180 deg; generic and pole-hugging boxes); a case is distinct by (operation, abstract "
                 "case, concretisation) and non-trivial always" %
                 (B["MaxNodes"], sorted(B["XVals"]), sorted(B["PVals"]), len(SCONC), B["CholMaxN"], B["CholMaxN"],
@@ -916,10 +978,15 @@ def run(ctx):
                          "vh.ratproj rational snap (denominator bound 2^18) of returned floats",
                          "stub generator objects (scripted random()/uniform()) and the recording deviate source"]
     ctx.assumptions = ["uniformity / distributional correctness of the draws is not in the statement and not checked",
-                       "a density table with two nodes has a single tabulated cumulative value: interpolation is undefined "
-                       "there and every outcome (the code raises IndexError) is accepted",
-                       "below the first tabulated cumulative value only monotonicity (value <= first tabulated abscissa) is "
-                       "demanded; 'exactly' for grid points is read as 'to rounding'",
+                       "the statement's 'positive densities' is widened to non-negative densities with positive total and to "
+                       "accumulated input: on a flat stretch of the cumulative distribution any of the grid points that share the "
+                       "value is accepted AT that value; strictly above it the interpolation must start from the right end, "
+                       "strictly below it end at the left end (SmpThmBracket)",
+                       "a table with fewer than two distinct tabulated cumulative values (two-node density table, all mass in the "
+                       "first interval) admits no interpolation: every outcome is accepted",
+                       "below the first tabulated cumulative value only monotonicity (value <= right end of the leading stretch "
+                       "of nodes sharing that value) is demanded; 'exactly' for grid points is read as 'to rounding'",
+                       "method='cut' (rejection sampling) is not the cumulative method of the statement and is not checked",
                        "which drawn deviate goes to which Cholesky sample is not stated: any arrangement is accepted",
                        "membership margins: box 1e-12 deg, cap 1e-9 deg; returned radius = separation to 1e-9 deg",
                        "that the cap point lies at r*sqrt(u1) from the centre is a mechanism-level lead, not demanded"]
